@@ -252,6 +252,11 @@ class IGen:
         body.append(["macro", "_hidden", [], [T("hidden")]])
         if r.random() < 0.5:
             body.append(["if", [[C(True), [["set", "condpub", C(60 + self.next())]]]], None])
+        if r.random() < 0.5:
+            # a public macro chosen by a top-level if (one of two implementations)
+            self.info.add("macro_in_toplevel_if")
+            body.append(["if", [[N("g"), [["macro", "condmac", [], [T(f"{{{name}.condmac.A}}")]]]]],
+                         [["macro", "condmac", [], [T(f"{{{name}.condmac.B}}")]]]])
         if r.random() < 0.4:
             body.append(["for", ["loopv"], ["list", [C(1)]], [["set", "inloop", C(9)]], None, None, False])
         if r.random() < 0.4:
@@ -363,8 +368,11 @@ class IGen:
             self.info.add("import_as")
             st = ["import", C(m), alias, wc]
             for attr in r.sample(["pub", "_priv", "condpub", "inloop", "blockpub", "mac", "_hidden",
-                                  "loopv", "inner", "nothing"], 4):
-                if attr in ("mac",):
+                                  "loopv", "inner", "nothing", "condmac", "condmac"], 4):
+                if attr == "condmac":
+                    uses.append(["if", [[["test", ["attr", N(alias), attr], "defined", [], False],
+                                         [["out", ["call", ["attr", N(alias), attr], [], []]]]]], [T("~")]])
+                elif attr in ("mac",):
                     uses.append(["out", ["call", ["attr", N(alias), attr], [C(r.randint(2, 5))] if r.random() < .5 else [], []]])
                 else:
                     uses.append(["out", F(["attr", N(alias), attr], "default", C("~"))])
